@@ -376,9 +376,20 @@ def audit_graph(expr, check_pickle=True, check_conflicts=True):
         if k not in g:
             problems.append({"symptom": "output-key-undefined", "key": repr(k)[:100]})
 
+    import re
+
+    hex32 = re.compile(r"[0-9a-f]{32}")
+    tokens = {m.group(0) for n in knames if isinstance(n, str) for m in [hex32.search(n)] if m}
+
     def looks_like_key(o, scope_names):
-        return (isinstance(o, tuple) and len(o) >= 2 and isinstance(o[0], str) and o[0] in scope_names
-                and all(isinstance(v, (int, np.integer, str)) for v in o[1:]))
+        if not (isinstance(o, tuple) and len(o) >= 2 and isinstance(o[0], str) and all(isinstance(v, (int, np.integer, str)) for v in o[1:])):
+            return False
+        if o[0] in scope_names:
+            return True
+        # helper keys are named after an expression of the plan ('split-<name>', ...): a tuple whose label carries the token of
+        # an expression of this plan is a key reference even if no task of that label exists (that is the defect looked for)
+        m = hex32.search(o[0])
+        return bool(m and m.group(0) in tokens and len(o) <= 4 and all(isinstance(v, (int, np.integer)) for v in o[1:]))
 
     def walk_scoped(t, defined=()):
         st = [t]
